@@ -211,3 +211,50 @@ pub proof fn lemma_rup_mono(n: usize, small: usize, big: usize)
         lemma_rup_least(n, small, rup(n, big) as usize);
     }
 }
+/// aligned base: rounding up commutes with adding an aligned base
+pub proof fn lemma_rup_shift(p: usize, s: usize, d: usize)
+    requires is_pow2(d), aligned(p, d), p + s + d - 1 <= usize::MAX,
+    ensures rup((p + s) as usize, d) == p + rup(s, d)
+{
+    lemma_rup(s, d); lemma_rup((p + s) as usize, d);
+    if s + d - 1 <= usize::MAX && p + s + d - 1 <= usize::MAX {
+        let a = (((p + s) as usize + (d - 1)) as usize) & !((d - 1) as usize);
+        let b = ((s + (d - 1)) as usize) & !((d - 1) as usize);
+        assert(a == p + b) by (bit_vector)
+            requires d > 0 && (d & ((d - 1) as usize)) == 0, (p & ((d - 1) as usize)) == 0,
+                p <= 0xffff_ffff_ffff_ffffusize - s, s <= 0xffff_ffff_ffff_ffffusize - (d - 1), p + s <= 0xffff_ffff_ffff_ffffusize - (d - 1),
+                a == (((p + s) as usize + (d - 1)) as usize) & !((d - 1) as usize), b == ((s + (d - 1)) as usize) & !((d - 1) as usize);
+    }
+}
+
+// ---- error type and panics -----------------------------------------------------------------
+#[derive(Debug)]
+pub struct AllocErr;
+/// `oom()` and friends diverge (panic): assumed never to return
+#[verifier::external_body]
+pub fn oom<T>() -> T ensures false { panic!("out of memory") }
+/// the panic inside new_chunk_memory_details sits on the path of the try_ methods: must be unreachable
+#[verifier::external_body]
+pub fn allocation_size_overflow<T>() -> T requires false { panic!("requested allocation size overflowed") }
+
+// ---- std Result/Option combinators missing from vstd (assumed specs, modelled on vstd's Option specs) ----
+pub assume_specification<T, E, F: FnOnce(E) -> T>[ Result::<T, E>::unwrap_or_else ](r: Result<T, E>, f: F) -> (t: T)
+    requires r is Err ==> f.requires((r->Err_0,)),
+    ensures match r { Ok(v) => t == v, Err(e) => f.ensures((e,), t) };
+pub broadcast proof fn lemma_pow2_aligned(p: usize, d: usize)
+    requires #[trigger] is_pow2(p), is_pow2(d), d <= p,
+    ensures #[trigger] aligned(p, d)
+{
+    assert((p & ((d - 1) as usize)) == 0) by (bit_vector)
+        requires p > 0 && (p & ((p - 1) as usize)) == 0, d > 0 && (d & ((d - 1) as usize)) == 0, d <= p;
+}
+pub broadcast proof fn lemma_aligned_consts()
+    ensures #[trigger] aligned(64, 16), aligned(48, 16), aligned(32, 16), aligned(16, 16), aligned(4096, 16), aligned(448, 16),
+{
+    assert(64usize & 15usize == 0) by (bit_vector);
+    assert(48usize & 15usize == 0) by (bit_vector);
+    assert(32usize & 15usize == 0) by (bit_vector);
+    assert(16usize & 15usize == 0) by (bit_vector);
+    assert(4096usize & 15usize == 0) by (bit_vector);
+    assert(448usize & 15usize == 0) by (bit_vector);
+}
